@@ -729,6 +729,8 @@ def application(pm, ctx):
         ctx.unrecognised("C08-f", site, "left_indices is not computed with np.where")
     else:
         cond = li[0].value.args[0] if isinstance(li[0].value, ast.Call) and li[0].value.args else None
+        from ..pm import canon_node
+        cond = canon_node(cond) if cond is not None else None
         okc = isinstance(cond, ast.Compare) and isinstance(cond.ops[0], ast.LtE) and norm_src(cond.left) == "X[leaf_indices, best_split.feature]" \
             and norm_src(cond.comparators[0]) == "best_split.threshold"
         if okc:
